@@ -369,6 +369,16 @@ class World:
         except Exception:  # noqa: BLE001
             return False
 
+    def probe_server_entry_keeps(self, mid, who="s"):
+        """Server only: after search_result_entry(mid) on a copy the id is still outstanding."""
+        cp = self.clone(who)
+        try:
+            cp.search_result_entry(mid, "", [])
+            cp.bind_response(mid, result_code=sansldap.LDAPResultCode.SASL_BIND_IN_PROGRESS)
+            return True
+        except Exception:  # noqa: BLE001
+            return False
+
     def probe_is_search(self, who, mid):
         """Client only: an entry for `mid` is accepted and leaves it in progress."""
         cp = self.clone(who)
